@@ -75,11 +75,17 @@ Definition spec_valid_changes (cap : Z) (l cs : list validator) : Prop :=
   (forall c, In c cs -> 0 <= v_power c <= cap) /\
   (forall c, In c cs -> v_power c = 0 -> lookup (v_addr c) l <> None).
 
+(** total power once the updates (power changes and additions) are applied and the removals
+    are not yet: every entry with a positive power replaces the old power of that address *)
+Definition old_power (l : list validator) (a : N) : Z :=
+  match lookup a l with Some o => v_power o | None => 0 end.
+Definition total_after_updates (l cs : list validator) : Z :=
+  total_power l +
+  fold_right (fun c acc => (if 0 <? v_power c then v_power c - old_power l (v_addr c) else 0) + acc) 0 cs.
+
 (** [m] is the membership after the change set, with the priorities the specification assigns *)
 Definition spec_members (l cs m : list validator) : Prop :=
-  let T' := total_power (filter (fun v => match lookup (v_addr v) cs with Some c => false | None => true end) l)
-            + total_power (filter (fun c => negb (v_power c =? 0)) cs)
-            + total_power (filter (fun v => match lookup (v_addr v) cs with Some c => v_power c =? 0 | None => false end) l) in
+  let T' := total_after_updates l cs in
   NoDup (map v_addr m) /\
   forall v, In v m <->
     (In v l /\ lookup (v_addr v) cs = None) \/
